@@ -293,6 +293,11 @@ Theorem C03_reraise_filter_never_drops_a_window : forall W files b, 3 <= W -> In
   reraise_filter_ref (raw_lines (nth_file files (r_file b))) (r_start b) (r_end b) = false.
 Proof. exact reraise_filter_spares_windows. Qed.
 Print Assumptions C03_reraise_filter_never_drops_a_window.
+Theorem C03_short_filters_never_drop_a_model_window : forall q W files b, lines_ok q files -> In b (dry_rows q W files) ->
+  let raw := raw_lines (nth_file files (r_file b)) in
+  (2 <= W -> model_logger_filter raw (r_start b) (r_end b) = false) /\ (3 <= W -> model_reraise_filter raw (r_start b) (r_end b) = false).
+Proof. exact short_filters_spare_model_windows. Qed.
+Print Assumptions C03_short_filters_never_drop_a_model_window.
 Theorem C03_registry_keeps_ordinary_windows : forall W files b configured custom calls, 3 <= W -> In b (ref_rows W files) ->
   let raw := raw_lines (nth_file files (r_file b)) in
   kwarg_filter_ref raw calls (r_start b) (r_end b) = false ->
